@@ -231,7 +231,7 @@ func deathFailure(info *scen.Info, kind string, exitCode int, stderr string, st 
 				fr = append(fr, line)
 			}
 		}
-		detail = "the race detector reports conflicting unsynchronised accesses between two simulated reader tasks, in: " + strings.Join(fr, ", ")
+		detail = "the race detector reports conflicting unsynchronised accesses (between two simulated tasks, or goroutines the code under test started), in: " + strings.Join(fr, ", ")
 	}
 	return &engine.Failure{Invariant: inv, Step: int(st.Step), Detail: detail}
 }
